@@ -115,6 +115,8 @@ structure NScopeOK (c : NCfg) (st : FixSt) (N : List Nat) : Prop where
   inj : ∀ a ∈ N, ∀ b ∈ N, a ≠ b → st.nname a ≠ st.nname b
   named : ∀ n ∈ N, truthy (st.nname n) = true
   kept : ∀ n ∈ N, truthy (c.orign n) = true → (∀ m ∈ N, m ≠ n → c.orign m ≠ c.orign n) → st.nname n = c.orign n
+  /-- `N` is in visiting order: the first holder of a name keeps it -/
+  first : FirstB c.orign st.nname N
 
 structure NGood (c : NCfg) (st : FixSt) (N : List Nat) : Prop extends NScopeOK c st N where
   top_iff : ∀ s, s ∈ topOf st.nstack ↔ ∃ n ∈ N, st.nname n = some s
@@ -124,7 +126,8 @@ theorem NScopeOK.of_eq {c : NCfg} {st st' : FixSt} {N : List Nat} (h : NScopeOK 
     (e : ∀ n ∈ N, st'.nname n = st.nname n) : NScopeOK c st' N :=
   ⟨fun a ha b hb hab => by rw [e a ha, e b hb]; exact h.inj a ha b hb hab,
    fun n hn => by rw [e n hn]; exact h.named n hn,
-   fun n hn h1 h2 => by rw [e n hn]; exact h.kept n hn h1 h2⟩
+   fun n hn h1 h2 => by rw [e n hn]; exact h.kept n hn h1 h2,
+   h.first.fin_eq e⟩
 
 theorem NGood.of_eq {c : NCfg} {st st' : FixSt} {N : List Nat} (h : NGood c st N)
     (e : ∀ n ∈ N, st'.nname n = st.nname n) (et : topOf st'.nstack = topOf st.nstack) : NGood c st' N :=
@@ -184,7 +187,18 @@ theorem fixNodeName_NGood {c : NCfg} {st : FixSt} (h : st.raised = false) {N : L
   have hself : (fixNodeName st n).nname n = some f := by rw [hname]; simp
   have hothN : ∀ m ∈ N, (fixNodeName st n).nname m = st.nname m := fun m hm => hoth m (fun e => hn (e ▸ hm))
   have htop : topOf (fixNodeName st n).nstack = f :: topOf st.nstack := by rw [hstk]; rfl
-  refine ⟨{ inj := ?_, named := ?_, kept := ?_, top_iff := ?_, gen := ?_ }, hoth⟩
+  have hnew : truthy (c.orign n) = true → (∀ m ∈ N, c.orign m ≠ c.orign n) → (fixNodeName st n).nname n = c.orign n := by
+    intro h1 h2
+    obtain ⟨s, hs, hsne⟩ := truthy_iff.mp h1
+    have hs' : st.nname n = some s := horig.trans hs
+    have hnot : s ∉ topOf st.nstack := by
+      intro hin
+      obtain ⟨m, hm, hms⟩ := (good.top_iff s).mp hin
+      rcases good.gen m hm with g | ⟨s', e1, e2⟩
+      · exact h2 m hm (by rw [← g, hms, hs])
+      · rw [hms] at e1; cases e1; exact e2 (hcol s hs hsne)
+    rw [hself, hfkeep s hs' hsne hnot, hs]
+  refine ⟨{ inj := ?_, named := ?_, kept := ?_, first := (good.first.fin_eq hothN).snoc hn hnew, top_iff := ?_, gen := ?_ }, hoth⟩
   · have key : ∀ a ∈ N, (fixNodeName st n).nname a ≠ (fixNodeName st n).nname n := by
       intro a ha e
       rw [hothN a ha, hself] at e
@@ -359,6 +373,7 @@ theorem runTr_nodes {c : NCfg} : ∀ (t : Tr) {st : FixSt} {N : List Nat},
     obtain ⟨n2, k2, _, r2⟩ := enterGraph_nodes h1 g isG ins outs (bodyOuts body)
     have g2 : NGood c (enterGraph (enterGraph st g isG ins outs (bodyOuts body)) g isG ins outs (bodyOuts body)) [] :=
       { inj := fun a ha => by simp at ha, named := fun a ha => by simp at ha, kept := fun a ha => by simp at ha
+        first := FirstB.nil _ _
         top_iff := fun s => by rw [k2]; simp [topOf]
         gen := fun a ha => by simp at ha }
     obtain ⟨g3, t3, f3, r3, s3⟩ := ihb h3 (by rw [r2, r1, hres]) g2 hnd_b
@@ -413,6 +428,7 @@ theorem fixTop_nodes {w : World} {t : Top} (hnr : (fixTop w t).raised = false) (
   obtain ⟨n1, k1, _, r1⟩ := enterGraph_nodes h0 t.gid t.isGraph t.ins t.outs (bodyOuts t.body)
   have g1 : NGood (topNCfg w t) (enterGraph (topInit w t) t.gid t.isGraph t.ins t.outs (bodyOuts t.body)) [] :=
     { inj := fun a ha => by simp at ha, named := fun a ha => by simp at ha, kept := fun a ha => by simp at ha
+      first := FirstB.nil _ _
       top_iff := fun s => by rw [k1]; simp [topOf]
       gen := fun a ha => by simp at ha }
   obtain ⟨g3, _, f3, _, s3⟩ := runTr_nodes (c := topNCfg w t) t.body h2 (by rw [r1]; rfl) g1 hnd
